@@ -301,3 +301,20 @@ def build6(m):
     m.add(Contract(BT + ':Paragraph.__init__', [('self', LEAF), ('lines', TList(STR))],
                    modifies=['self.children', 'self.g_content', 'G:INLINE_PHASE', 'N:Token.line_number', 'N:Token.children'],
                    allow_exc=['CustomTokenError'], prop=['C01']))
+
+
+def build7(m):
+    """TableCell.__init__ on its real body (C13 line number, C12 alignment in range): a second view next
+    to the trusted one that the row comprehension uses."""
+    BT = 'mistletoe.block_token'
+    CELL = TRef('TableCellFull')
+    m.classes['TableCellFull'] = {'align': TOpt(INT), 'line_number': TOpt(INT)}
+    m.subclass_of['TableCellFull'] = 'LeafBlock'
+    m.subclass_of['TableCell'] = 'BlockToken'
+    m.add(Contract(BT + ':TableCell.__init__#fields', [('self', CELL), ('content', STR), ('align', TOpt(INT), NONE_VAL),
+                                                       ('line_number', TOpt(INT), NONE_VAL)],
+                   ensures=[('same(self.line_number, line_number)', 'C13'), ('same(self.align, align)', ['C12', 'C03']),
+                            ('self.g_content == content', ['C03', 'C12'])],
+                   modifies=['self.align', 'self.line_number', 'self.children', 'self.g_content', 'G:INLINE_PHASE',
+                             'N:Token.line_number', 'N:Token.children'],
+                   allow_exc=['CustomTokenError'], prop=['C13', 'C12']))
